@@ -202,6 +202,7 @@ def k15_edges(ctx) -> None:
 
 def k16_connect_cycles(ctx) -> None:
     k16b_visited_when_expanded(ctx)
+    k16c_stack_discipline(ctx)
     """Only vertices on a detected cycle are merged: the merge loop runs over path[i:] where
     path[i] is already equivalent to the vertex the edge leads to."""
     P = ctx.P
@@ -251,6 +252,27 @@ def _t(text: str):
         return ast.parse(text, mode="eval").body
     except SyntaxError:
         return ast.Constant(value=None)
+
+
+def k16c_stack_discipline(ctx) -> None:
+    """The paths are kept on a stack: pushed and popped at the same end."""
+    P = ctx.P
+    m = P.need_method(DB, "connect_cycles", own=True)
+    f = m.node
+    pops = [c for c in walk_local(f) if isinstance(c, ast.Call) and isinstance(c.func, ast.Attribute) and c.func.attr in ("pop", "popleft") and isinstance(c.func.value, ast.Name)
+            and "stack" in c.func.value.id and not c.args]
+    if not pops:
+        return
+    st = pops[0].func.value.id
+    right_pop = pops[0].func.attr == "pop"
+    pushes = [c for c in walk_local(f) if isinstance(c, ast.Call) and isinstance(c.func, ast.Attribute) and isinstance(c.func.value, ast.Name) and c.func.value.id == st
+              and c.func.attr in ("append", "appendleft") and any(isinstance(l, ast.While) for l in C.enclosing_loops(f, c))]
+    bad = [c for c in pushes if (c.func.attr == "append") != right_pop]
+    if bad:
+        ctx.violation("K16", bad[0], f"paths are pushed with `{bad[0].func.attr}` and taken with `{pops[0].func.attr}`: that is a queue, not a stack -- the search is no longer depth "
+                      "first, and the path in hand is no longer the chain of vertices the walk came along, which is what a closing edge is tested against")
+    elif pushes:
+        ctx.ok("K16", "paths are pushed and popped at the same end (depth first)")
 
 
 def k16b_visited_when_expanded(ctx) -> None:
